@@ -1,12 +1,12 @@
 /-
   C04 — Reopen preserves logical content.
-  Statements only (helper lemmas: Nervus.Proofs.EngineReplay, EngineReplay2).
+  Statements only (helper lemmas: Nervus.Proofs.{EngineReplay,EngineReplay2,WalBlocks,ReplayIdmap,ReopenRec*,
+  ReopenMain,ReopenHist,IdEq,RunsEqReads,CheckpointRec,CheckpointHist}).
   Model: Nervus.Model.Engine (`commit` record order from the regenerated WalOrder table,
   `checkpoint_on_close`, `open` = replay_committed + scan_recovery_state + replay_label_transactions
   + IdMap::load + replay_graph_transactions with the `txid ≤ checkpoint_txid` skip).
 -/
-import Nervus.Proofs.ReopenHist
-import Nervus.Proofs.EngineCompact
+import Nervus.Proofs.CheckpointHist
 import Nervus.Model.Triggers
 namespace Nervus.Props.C04
 open Nervus Nervus.Storage
@@ -49,6 +49,37 @@ theorem C04_partial (h : List Op) (hops : txOrReopen h = true) (hwf : GraphSpec.
   obtain ⟨s', hopen, hsim', _⟩ := reopen_sim hsim hrec
   exact ⟨s, s', hrun, hopen, hsim.reads _, hsim'.reads _⟩
 
+/-- **C04 (proved part, histories WITH compaction / checkpoint / close)**.
+    For EVERY well-formed history of transactions (committed or dropped), compactions
+    (= `Db::compact` = `Db::checkpoint`), closes (`checkpoint_on_close` + open: the log is REPLACED by
+    label table + manifest + checkpoint when nothing is unflushed) and reopens (drop + open), in any
+    order and number, that triggers no C06 finding and is `ckptHistSafe` (decidable: no label operation
+    after node creation — the finding `C04-label-change-lost-after-checkpoint` —, compactions only from
+    `compactSafe` states with fresh node keys, no removal over a store value — the C05 findings):
+    the history runs without error; a further reopen AND a further close both succeed and change no
+    read (`SameContent`); and the engine answers every read like the shadow engine `u` that ran only
+    the transactions, which agrees with the Spec graph of the history.
+    Covers the checkpoint skip of `replay_graph_transactions` (`txid ≤ checkpoint_txid`), the manifest
+    / checkpoint scan, the segment lookup by id, and the close-time log rewrite. -/
+theorem C04_partial_ckpt (h : List Op) (hwf : GraphSpec.wellFormed h = true)
+    (hk : GraphSpec.noC06Trigger h = true) (hsz : histSize h ≤ labelMax)
+    (hs : ckptHistSafe Cfg.current {} h = true) :
+    ∃ s s' s'' u, Storage.run Cfg.current h = .ok s ∧ s.reopen = .ok s' ∧ s.checkpointOnClose.reopen = .ok s'' ∧
+      SameContent s s' ∧ SameContent s s'' ∧
+      Storage.run Cfg.current (txPart h) = .ok u ∧ ReadsAgree Cfg.current u (GraphSpec.run h) ∧
+      SameContent u s := by
+  simp only [GraphSpec.noC06Trigger, Bool.and_eq_true, Bool.not_eq_true'] at hk
+  obtain ⟨⟨⟨k1, k2⟩, k3⟩, k4⟩ := hk
+  obtain ⟨s, u, hrun, hrunu, hP⟩ := hist_pair h {} {} {} Pair.empty hs hwf (by simpa using hsz) k1 k2 k3 k4
+  obtain ⟨s', hopen, hP'⟩ := hP.reopen
+  obtain ⟨s'', hclose, hP''⟩ := hP.close
+  have sc : ∀ {a b : Engine}, Eqv Cfg.current a b → SameContent b a := by
+    intro a b hE
+    obtain ⟨r1, _, _, r4, r5, r6, r7, _, _, _, r10, r11, r12, _, _⟩ := hE.reads
+    exact ⟨r1, fun n => congrFun r10 n, fun n => congrFun r11 n, fun x => congrFun r12 x, r6, r7, r4, r5⟩
+  exact ⟨s, s', s'', u, hrun, hopen, hclose, sc (hP'.eqv.trans hP.eqv.symm), sc (hP''.eqv.trans hP.eqv.symm),
+    hrunu, hP.sim.reads _, sc hP.eqv⟩
+
 /-- one reopen step, state level: from any engine state that satisfies the two invariants -/
 theorem reopen_preserves_invariants {s : Engine} {g : GraphSpec.Graph} (hS : Sim s g) (hR : Rec s) :
     ∃ s', s.reopen = .ok s' ∧ Sim s' g ∧ Rec s' := reopen_sim hS hR
@@ -84,6 +115,21 @@ def hReopens : List Op :=
 
 example : txOrReopen hReopens = true ∧ GraphSpec.wellFormed hReopens = true ∧
     GraphSpec.noC06Trigger hReopens = true ∧ histSize hReopens ≤ labelMax := by decide
+
+/-- non-vacuity of `C04_partial_ckpt`: compactions, a reopen between them, a node-only transaction above
+    the checkpoint, a close that rewrites the log, writes after it, a dropped transaction, reopen, close -/
+def hCkpt : List Op :=
+  [ .tx [.node 10 (some 321), .node 11 none, .edge 0 338 1, .edge 0 338 1, .nprop 0 363 7] true,
+    .compact,
+    .tx [.node 12 (some 322), .edge 2 338 0, .eprop 2 338 0 363 5] true,
+    .reopen,
+    .tx [.node 13 none] true,
+    .compact, .close,
+    .tx [.nprop 1 363 9] true, .tx [.node 14 none] false,
+    .reopen, .close ]
+
+example : ckptHistSafe Cfg.current {} hCkpt = true ∧ GraphSpec.wellFormed hCkpt = true ∧
+    GraphSpec.noC06Trigger hCkpt = true ∧ histSize hCkpt ≤ labelMax := by decide
 
 def A : Nat := 321
 def B : Nat := 322
